@@ -9,7 +9,9 @@ OBLIGATIONS = ['Yalafi.C14_mapMatch_word', 'Yalafi.C14_assemble_shift', 'Yalafi.
                'Yalafi.C14_html_end_agrees', 'Yalafi.C14_xmlb_bytes', 'Yalafi.C14_xmlb_bytes_end', 'Yalafi.C14_translate_numbers',
                'Yalafi.C14_translate_numbers_none',
                'Yalafi.C14_shell_assembly', 'Yalafi.C14_line_column_unique', 'Yalafi.C14_run_reported', 'Yalafi.C14_flagged_word_group_e2e', 'Yalafi.C14_copied_run_group', 'Yalafi.C14_copied_run_contiguous', 'Yalafi.C14_copied_run_footnote', 'Yalafi.C14_flagged_word_e2e', 'Yalafi.C14_sorted_e2e', 'Yalafi.C14_runs_sorted', 'Yalafi.C14_flagged_word_e2e_current', 'Yalafi.C14_flagged_word_example_current', 'Yalafi.C14_flagged_word_example', 'Yalafi.C14_flagged_word_example_eval', 'Yalafi.C14_sorted_example_eval', 'Yalafi.C14_flagged_word_group_e2e_current', 'Yalafi.C14_flagged_word_group_example_current', 'Yalafi.C14_flagged_word_group_example_eval',
-               'Yalafi.C14_shift_is_text_length', 'Yalafi.C14_submit_split', 'Yalafi.C14_assemble_run', 'Yalafi.C14_ml_run_reported', 'Yalafi.C14_ml_runs_sorted', 'Yalafi.C14_flagged_word_ml_e2e', 'Yalafi.C14_sorted_ml_e2e', 'Yalafi.C14_withAnswers', 'Yalafi.C14_flagged_word_ml_e2e_current', 'Yalafi.C14_flagged_word_ml_example_current', 'Yalafi.C14_flagged_word_ml_example', 'Yalafi.C14_flagged_word_ml_example_eval', 'Yalafi.C14_shell_loop_is_submit']
+               'Yalafi.C14_shift_is_text_length', 'Yalafi.C14_submit_split', 'Yalafi.C14_assemble_run', 'Yalafi.C14_ml_run_reported', 'Yalafi.C14_ml_runs_sorted', 'Yalafi.C14_flagged_word_ml_e2e', 'Yalafi.C14_sorted_ml_e2e', 'Yalafi.C14_withAnswers', 'Yalafi.C14_flagged_word_ml_e2e_current', 'Yalafi.C14_flagged_word_ml_example_current', 'Yalafi.C14_flagged_word_ml_example', 'Yalafi.C14_flagged_word_ml_example_eval', 'Yalafi.C14_shell_loop_is_submit',
+               'Yalafi.PlainLangMix.C14_flagged_word_mlmix_e2e', 'Yalafi.PlainLangMix.C14_flagged_word_mlmix_unique', 'Yalafi.PlainLangMix.C14_flagged_word_mlmix_exactly_one', 'Yalafi.PlainLangMix.C14_sorted_mlmix_e2e', 'Yalafi.PlainLangMix.C14_flagged_word_mlmix_e2e_current', 'Yalafi.PlainLangMix.C14_flagged_word_mlmix_exactly_one_current', 'Yalafi.PlainLangMix.C14_flagged_word_mlmix_example_current', 'Yalafi.PlainLangMix.C14_flagged_word_mlmix_example', 'Yalafi.PlainLangMix.C14_flagged_word_mlmix_example_eval', 'Yalafi.PlainLangMix.C14_mlmix_single_char_not_unique',
+               'Yalafi.C14_copied_run_mix3', 'Yalafi.C14_copied_run_footnote_mix3', 'Yalafi.C14_flagged_word_mix3_e2e', 'Yalafi.C14_flagged_run_mix3_e2e', 'Yalafi.C14_flagged_word_head_mix3_e2e', 'Yalafi.C14_flagged_word_foot_mix3_e2e', 'Yalafi.C14_sorted_mix3_e2e', 'Yalafi.C14_flagged_word_mix3_e2e_current', 'Yalafi.C14_sorted_mix3_e2e_current', 'Yalafi.C14_flagged_word_mix3_example_current', 'Yalafi.C14_flagged_word_mix3_example', 'Yalafi.C14_sorted_mix3_example', 'Yalafi.C14_flagged_word_mix3_example_eval', 'Yalafi.C14_sorted_mix3_example_eval', 'Yalafi.C14_flagged_extra_mix3_example_current', 'Yalafi.C14_flagged_extra_mix3_example']
 
 ONLY = {'c_group', 'c_unknown', 'c_vanish', 'c_ref', 'c_inline_math', 'c_cite', 'c_footnote', 'c_itemize', 'c_env_unknown',
         'c_foreign', 'c_special', 'c_heading'}
